@@ -146,6 +146,36 @@ fn main() {
         return;
     }
     let args = Args::parse();
+    let journal_path = args.out.join("journal.txt");
+    if std::env::var("HX_UNSIZED_WORKER").is_err() {
+        // Supervisor: the real work runs in a child process. If the code under test takes the child
+        // down (SIGSEGV, abort, stack overflow), the journal names the case and line it was running:
+        // that case becomes an oracle failure of class `crash` (and is what `--replay` / shrinking see).
+        let exe = std::env::current_exe().expect("current_exe");
+        let status = std::process::Command::new(exe)
+            .args(std::env::args().skip(1))
+            .env("HX_UNSIZED_WORKER", "1")
+            .status()
+            .expect("spawn worker");
+        if status.success() {
+            let _ = std::fs::remove_file(&journal_path);
+            return;
+        }
+        let text = std::fs::read_to_string(&journal_path).unwrap_or_default();
+        let mut rec = Recorder::new("worker process died while running the case");
+        let mut lines = text.lines();
+        let header = lines.next().filter(|h| h.starts_with("case")).unwrap_or("case ? (rem) -");
+        rec.case(header);
+        for l in lines {
+            rec.op(l, "crash");
+        }
+        rec.fail("crash", &format!("the harness worker died ({status}) while running the last line of this case"));
+        rec.mark_nontrivial();
+        rec.extra.insert("worker_crashed".into(), serde_json::json!(true));
+        rec.finish(&args);
+        let _ = std::fs::remove_file(&journal_path);
+        return;
+    }
     hx_common::quiet_panics();
     let prop = match args.prop.as_str() {
         "C01" => Prop::C01,
@@ -157,7 +187,8 @@ fn main() {
     let rule = "case performed at least one resize that changed the data length, or took an error path (index/range/prefix overflow/growth limit/refused growth)";
     let mut rec = Recorder::new(rule);
     rec.exhaustive = Some(false);
-    let mut runner = Runner { reg: &reg, cx: Cx { rec: &mut rec, prop }, cases_by_shape: BTreeMap::new() };
+    let journal = std::fs::File::create(&journal_path).ok();
+    let mut runner = Runner { reg: &reg, cx: Cx { rec: &mut rec, prop, journal }, cases_by_shape: BTreeMap::new() };
     let thorough = args.thorough();
     let mut extra: BTreeMap<String, serde_json::Value> = BTreeMap::new();
 
